@@ -478,9 +478,8 @@ func (x *Exec) frameFormula(comp string, locs []modLoc, oldSym, newSym, naOld st
 		}
 		return "(= " + newSym + " " + oldSym + ")"
 	}
-	isGhost := strings.HasPrefix(comp, "G_") || strings.HasPrefix(comp, "GV_")
 	rng := "(and (< 0 r!) (< r! " + naOld + "))"
-	if isGhost {
+	if strings.HasPrefix(comp, "G_") && x.eng.ghostByValue[strings.TrimPrefix(comp, "G_")] {
 		rng = "true"
 	}
 	pat := ""
@@ -950,6 +949,13 @@ func (e *Engine) scanWrites(fn *ssa.Function, blocks []*ssa.BasicBlock) *WriteSe
 			switch t := ins.(type) {
 			case *ssa.Store:
 				addrComp(t.Addr)
+				if fa, ok := t.Addr.(*ssa.FieldAddr); ok {
+					pt := fa.X.Type().Underlying().(*types.Pointer).Elem()
+					si := so.structInfo(pt)
+					if g, ok := e.onStore[so.structComp(pt)+"."+si.Fields[fa.Field].Acc]; ok {
+						ws.add("G_" + g)
+					}
+				}
 			case *ssa.Alloc:
 				et := t.Type().(*types.Pointer).Elem()
 				switch u := et.Underlying().(type) {
